@@ -47,12 +47,16 @@ def _concrete_one(d):
 class SArr:
     __array_priority__ = 1000
 
-    def __init__(self, shape, at, dtype=None, log=None, kind="array"):
+    def __init__(self, shape, at, dtype=None, log=None, kind="array", struct=None):
         self.shape = tuple(shape)
         self._at = at
         self.dtype = dtype or np.dtype("f8")
         self.log = log
         self.kind = kind
+        # structure kept for scans (accumulate / reduce need more than an element function):
+        #   ("aff", Leaf, coords)  coords[k] = ("fix", base) | ("lin", base, stride, out_axis) per leaf axis
+        #   ("cat", axis, [parts]) concatenation of structured parts along one axis
+        self.struct = struct
 
     # ---- basics
     @property
@@ -83,8 +87,17 @@ class SArr:
             raise TypeError("len() of unsized object")
         return self.shape[0]
 
-    def _derive(self, shape, at, kind=None):
-        return SArr(shape, at, self.dtype, self.log, kind or "array")
+    def _derive(self, shape, at, kind=None, struct=None):
+        return SArr(shape, at, self.dtype, self.log, kind or "array", struct)
+
+    def astype(self, dtype=None, *a, **k):
+        return self
+
+    def view(self, *a, **k):
+        return self
+
+    def __array__(self, *a, **k):
+        raise core.Unsupported("symbolic array coerced to a NumPy array (unsupported kernel step)")
 
     # ---- NumPy basic indexing (ints, slices, None, Ellipsis)
     def __getitem__(self, index):
@@ -134,7 +147,48 @@ class SArr:
                     out.append(_z(p[1]) + _z(p[2]) * idx[p[3]])
             return src._at(tuple(out))
 
-        return self._derive(new_shape, at)
+        return self._derive(new_shape, at, struct=self._index_struct(plan, index, new_shape))
+
+    def _index_struct(self, plan, index, new_shape):
+        st = self.struct
+        if st is None:
+            return None
+        if st[0] == "aff":
+            coords = []
+            for c in st[2]:
+                if c[0] == "fix":
+                    coords.append(c)
+                    continue
+                _k, base, stride, j = c
+                p = plan[j]
+                if p[0] == "int":
+                    coords.append(("fix", base + stride * p[1]))
+                else:
+                    coords.append(("lin", base + stride * p[1], stride * p[2], p[3]))
+            return ("aff", st[1], coords)
+        if st[0] == "cat":
+            axis, parts = st[1], st[2]
+            if any(i is None for i in index):
+                return None
+            p = plan[axis]
+            if p[0] != "slice" or p[2] != 1:
+                return None
+            # unit-step slice along the concatenation axis: slice every part (clamped), same index elsewhere
+            lo = p[1]
+            hi = lo + new_shape[p[3]]
+            off = 0
+            new_parts = []
+            for part in parts:
+                n = part.shape[axis]
+                a = core._ite(lo - off > 0, core._ite(lo - off < n, lo - off, n), 0)
+                b = core._ite(hi - off > 0, core._ite(hi - off < n, hi - off, n), 0)
+                b = core._ite(b < a, a, b)
+                ix = list(index)
+                ix[axis] = slice(a, b)
+                new_parts.append(part[tuple(ix)])
+                off = off + n
+            return ("cat", p[3], new_parts)
+        return None
 
     # ---- structural ops
     def transpose(self, *axes):
@@ -152,7 +206,11 @@ class SArr:
                 back[a] = idx[j]
             return src._at(tuple(back))
 
-        return self._derive(tuple(self.shape[a] for a in axes), at)
+        st = None
+        if self.struct is not None and self.struct[0] == "aff":
+            inv = {a: j for j, a in enumerate(axes)}
+            st = ("aff", self.struct[1], [c if c[0] == "fix" else ("lin", c[1], c[2], inv[c[3]]) for c in self.struct[2]])
+        return self._derive(tuple(self.shape[a] for a in axes), at, struct=st)
 
     @property
     def T(self):
@@ -172,19 +230,26 @@ class SArr:
                 shape.append(next(it))
                 keep.append(j)
         src = self
-        return self._derive(shape, lambda idx, keep=tuple(keep), src=src: src._at(tuple(idx[j] for j in keep)))
+        st = None
+        if self.struct is not None and self.struct[0] == "aff":
+            st = ("aff", self.struct[1], [c if c[0] == "fix" else ("lin", c[1], c[2], keep[c[3]]) for c in self.struct[2]])
+        return self._derive(shape, lambda idx, keep=tuple(keep), src=src: src._at(tuple(idx[j] for j in keep)), struct=st)
 
     def broadcast_to(self, shape):
         shape = tuple(shape)
         off = len(shape) - self.ndim
         assert off >= 0
-        pin = []
-        for j, d in enumerate(self.shape):
-            pin.append(_concrete_one(d) and not _concrete_one(shape[off + j]))
+        dims = tuple(self.shape)
         src = self
 
-        def at(idx, off=off, pin=tuple(pin), src=src):
-            return src._at(tuple(z3.IntVal(0) if pin[j] else idx[off + j] for j in range(len(pin))))
+        def at(idx, off=off, dims=dims, src=src):
+            out = []
+            for j, d in enumerate(dims):
+                if isinstance(d, int):
+                    out.append(z3.IntVal(0) if d == 1 else idx[off + j])
+                else:  # symbolic extent: pinned to 0 exactly when it is 1
+                    out.append(z3.If(_z(d) == 1, z3.IntVal(0), idx[off + j]))
+            return src._at(tuple(out))
 
         return self._derive(shape, at)
 
@@ -198,7 +263,101 @@ class SArr:
             idx[axis] = _z(n) - 1 - idx[axis]
             return src._at(tuple(idx))
 
+        st = None
+        if self.struct is not None and self.struct[0] == "aff":
+            st = ("aff", self.struct[1], [("lin", c[1] + c[2] * (n - 1), -c[2], c[3]) if c[0] == "lin" and c[3] == axis else c
+                                          for c in self.struct[2]])
+        elif self.struct is not None and self.struct[0] == "cat":
+            cax, parts = self.struct[1], self.struct[2]
+            parts = [p.flip(axis) for p in parts]
+            st = ("cat", cax, parts[::-1] if cax == axis else parts)
+        return self._derive(self.shape, at, struct=st)
+
+    # ---- scans: running / total "sum" along an axis, in terms of the leaf's uninterpreted prefix function
+    def accumulate(self, axis, op="add"):
+        axis = int(axis) % self.ndim
+        st = self.struct
+        if st is None:
+            raise core.Unsupported("scan over an array that is neither a view of a source nor a concatenation of views")
+        if st[0] == "cat":
+            cax, parts = st[1], st[2]
+            if cax != axis:
+                return _concatenate([p.accumulate(axis, op) for p in parts], axis=cax)
+            out, carry = [], None
+            for p in parts:
+                acc = p.accumulate(axis, op)
+                out.append(acc if carry is None else acc + carry)
+                tot = p.reduce_axis(axis, op, keepdims=True)
+                carry = tot if carry is None else carry + tot
+            return _concatenate(out, axis=axis)
+        leafobj, coords = st[1], st[2]
+        L = next((k for k, c in enumerate(coords) if c[0] == "lin" and c[3] == axis), None)
+        if L is None:
+            raise core.Unsupported("scan along an axis that is not a source axis")
+        _k, base, stride, _j = coords[L]
+        if stride not in (1, -1):
+            raise core.Unsupported("scan over a strided view")
+        S = leafobj.prefix(L, op)
+
+        def at(idx, coords=tuple(coords), L=L, base=base, stride=stride, S=S, axis=axis):
+            pos = [(_z(c[1]) if c[0] == "fix" else _z(c[1]) + c[2] * idx[c[3]]) for c in coords]
+
+            def Sat(k):
+                q = list(pos)
+                q[L] = k
+                return S(*q)
+
+            if stride == 1:
+                return Sat(pos[L] + 1) - Sat(_z(base))
+            return Sat(_z(base) + 1) - Sat(pos[L])
+
         return self._derive(self.shape, at)
+
+    def reduce_axis(self, axis, op="add", keepdims=False):
+        axis = int(axis) % self.ndim
+        st = self.struct
+        if st is None:
+            raise core.Unsupported("reduction over an array that is neither a view of a source nor a concatenation of views")
+        if st[0] == "cat":
+            cax, parts = st[1], st[2]
+            if cax != axis:
+                return _concatenate([p.reduce_axis(axis, op, keepdims) for p in parts], axis=cax if keepdims or cax < axis else cax - 1)
+            tot = None
+            for p in parts:
+                t = p.reduce_axis(axis, op, keepdims)
+                tot = t if tot is None else tot + t
+            return tot
+        leafobj, coords = st[1], st[2]
+        L = next((k for k, c in enumerate(coords) if c[0] == "lin" and c[3] == axis), None)
+        if L is None:
+            raise core.Unsupported("reduction along an axis that is not a source axis")
+        _k, base, stride, _j = coords[L]
+        if stride not in (1, -1):
+            raise core.Unsupported("reduction over a strided view")
+        n = self.shape[axis]
+        S = leafobj.prefix(L, op)
+        lo = base if stride == 1 else base - n + 1
+        hi = lo + n
+
+        def at(idx, coords=tuple(coords), L=L, S=S, axis=axis, lo=lo, hi=hi, keepdims=keepdims):
+            if not keepdims:
+                idx = list(idx[:axis]) + [z3.IntVal(0)] + list(idx[axis:])
+            pos = [(_z(c[1]) if c[0] == "fix" else _z(c[1]) + c[2] * idx[c[3]]) for c in coords]
+
+            def Sat(k):
+                q = list(pos)
+                q[L] = k
+                return S(*q)
+
+            # an empty extent sums to the identity (0): S(lo) - S(lo)
+            return z3.If(_z(hi) > _z(lo), Sat(_z(hi)) - Sat(_z(lo)), z3.RealVal(0))
+
+        shape = list(self.shape)
+        if keepdims:
+            shape[axis] = 1
+        else:
+            del shape[axis]
+        return self._derive(shape, at)
 
     # ---- element-wise
     def _elemwise(self, other, op, rev=False):
@@ -209,7 +368,14 @@ class SArr:
             for j in range(nd):
                 da = a.shape[j - (nd - a.ndim)] if j >= nd - a.ndim else 1
                 db = b.shape[j - (nd - b.ndim)] if j >= nd - b.ndim else 1
-                shape.append(db if _concrete_one(da) else da)
+                if isinstance(da, int) and isinstance(db, int):
+                    shape.append(db if da == 1 else da)
+                else:
+                    shape.append(core._ite(da == 1, db, da))
+                    log = self.log or other.log
+                    if log is not None:
+                        log.add("operands are broadcast-compatible",
+                                core._wrapb(z3.Or(_z(da) == _z(db), _z(da) == 1, _z(db) == 1)))
             A, B = a.broadcast_to(shape), b.broadcast_to(shape)
             return self._derive(shape, lambda idx: op(A._at(idx), B._at(idx)))
         c = core.SymReal._r(other)
@@ -240,6 +406,45 @@ class SArr:
         src = self
         return self._derive(self.shape, lambda idx: -src._at(idx))
 
+    def __invert__(self):
+        st = self.struct
+        if st is not None and st[0] == "aff" and st[1].role == "nan":
+            base = SArr(self.shape, None, self.dtype, self.log, struct=("aff", st[1].parent, st[2]))
+            return companion_view(base, "valid")
+        raise core.Unsupported("~ on a symbolic array that is not an isnan() mask")
+
+    def _compare(self, other, op):
+        res = self._elemwise(other, op)
+        res.is_bool = True
+        return res
+
+    def __lt__(self, o):
+        return self._compare(o, lambda x, y: x < y)
+
+    def __le__(self, o):
+        return self._compare(o, lambda x, y: x <= y)
+
+    def __gt__(self, o):
+        return self._compare(o, lambda x, y: x > y)
+
+    def __ge__(self, o):
+        return self._compare(o, lambda x, y: x >= y)
+
+    def __setitem__(self, index, value):
+        if isinstance(index, SArr) and getattr(index, "is_bool", False) and not isinstance(value, SArr):
+            try:
+                nanv = value != value
+            except Exception:
+                nanv = False
+            v = NAN if nanv else core.SymReal._r(value)
+            old, mask = self._at, index
+            if len(mask.shape) != len(self.shape):
+                raise core.Unsupported("boolean mask of a different rank")
+            self._at = lambda idx, old=old, mask=mask, v=v: z3.If(mask._at(idx), v, old(idx))
+            self.struct = None
+            return
+        raise core.Unsupported("item assignment on a symbolic array (only boolean-mask := scalar is modelled)")
+
     # ---- NumPy protocol: np.transpose(SArr) etc. land here
     def __array_function__(self, func, types, args, kwargs):
         name = func.__name__
@@ -248,9 +453,33 @@ class SArr:
         raise core.Unsupported(f"numpy function {name} on a symbolic array")
 
     def __array_ufunc__(self, ufunc, method, *inputs, **kwargs):
-        if method != "__call__" or kwargs.get("out") is not None:
-            raise core.Unsupported(f"ufunc {ufunc.__name__}.{method} on a symbolic array")
         name = ufunc.__name__
+        out = kwargs.pop("out", None)
+        kwargs.pop("casting", None)
+        kwargs.pop("dtype", None)
+        if out is not None:
+            tgt = out[0] if isinstance(out, tuple) else out
+            if not isinstance(tgt, SArr):
+                raise core.Unsupported("ufunc out= is not a symbolic array")
+            # inputs that alias the output are read before it is overwritten
+            inputs = tuple(SArr(x.shape, x._at, x.dtype, x.log, x.kind, x.struct) if x is tgt else x for x in inputs)
+            res = inputs[0].__array_ufunc__(ufunc, method, *inputs, **kwargs) if isinstance(inputs[0], SArr) else \
+                next(x for x in inputs if isinstance(x, SArr)).__array_ufunc__(ufunc, method, *inputs, **kwargs)
+            tgt._at, tgt.shape, tgt.struct = res._at, res.shape, None
+            return tgt
+        if method == "accumulate":
+            if name != "add":
+                raise core.Unsupported(f"{name}.accumulate: only add has a decidable prefix model (see DESIGN C19)")
+            return inputs[0].accumulate(kwargs.get("axis", 0), name)
+        if method == "reduce":
+            if name != "add":
+                raise core.Unsupported(f"{name}.reduce: only add has a decidable prefix model (see DESIGN C19)")
+            ax = kwargs.get("axis", 0)
+            if ax is None or isinstance(ax, tuple):
+                raise core.Unsupported("multi-axis reduce on a symbolic array")
+            return inputs[0].reduce_axis(ax, name, keepdims=bool(kwargs.get("keepdims", False)))
+        if method != "__call__":
+            raise core.Unsupported(f"ufunc {ufunc.__name__}.{method} on a symbolic array")
         arrs = [x for x in inputs if isinstance(x, SArr)]
         if name == "add" and len(inputs) == 2:
             return inputs[0] + inputs[1] if isinstance(inputs[0], SArr) else inputs[1].__radd__(inputs[0])
@@ -258,6 +487,13 @@ class SArr:
             return inputs[0] - inputs[1] if isinstance(inputs[0], SArr) else inputs[1].__rsub__(inputs[0])
         if name == "negative":
             return -inputs[0]
+        if name in ("divide", "true_divide") and len(inputs) == 2 and isinstance(inputs[0], SArr):
+            d = inputs[1]
+            if isinstance(d, SArr):
+                return inputs[0]._elemwise(d, lambda x, y: x / y)
+            dz = core.SymReal._r(d)
+            src = inputs[0]
+            return src._derive(src.shape, lambda idx: src._at(idx) / dz)
         if len(inputs) == 1:
             src = arrs[0]
             return src._derive(src.shape, lambda idx: _UF(name, src._at(idx)))
@@ -286,12 +522,86 @@ def _UF(name, *args):
 def leaf(name, shape, log=None, itemsize=8, kind="array", cls=None):
     """A source array: elements are an uninterpreted function of the position."""
     nd = len(shape)
-    f = z3.Function(f"src_{name}", *([z3.IntSort()] * nd + [z3.RealSort()])) if nd else None
+    L = Leaf(name, nd)
+    f = L.fn
     c0 = z3.Real(f"src_{name}_scalar") if not nd else None
     dt = np.dtype(f"V{itemsize}") if itemsize not in (1, 2, 4, 8) else np.dtype(f"i{itemsize}")
     out = (cls or SArr)(shape, (lambda idx: f(*idx)) if nd else (lambda idx: c0), dt, log, kind)
     out._symx_token = f"leaf:{name}"
+    out.struct = ("aff", L, [("lin", 0, 1, j) for j in range(nd)])
     return out
+
+
+NAN = z3.Real("NaN")  # the value written where a result is undefined (compared only for identity)
+
+
+def _same_coords(a, b):
+    if len(a) != len(b):
+        return False
+    for x, y in zip(a, b):
+        if x[0] != y[0]:
+            return False
+        if not z3.eq(z3.simplify(_z(x[1])), z3.simplify(_z(y[1]))):
+            return False
+        if x[0] == "lin" and (x[2] != y[2] or x[3] != y[3]):
+            return False
+    return True
+
+
+def companion_view(a, role):
+    """the same view as `a` (an affine view of a source) over a companion quantity of that source"""
+    st = a.struct
+    if st is None:
+        raise core.Unsupported(f"{role} of an array that is not a view of a source")
+    if st[0] == "cat":
+        return _concatenate([companion_view(p, role) for p in st[2]], axis=st[1])
+    L2 = st[1].companion(role)
+    coords = st[2]
+
+    def at(idx, coords=tuple(coords), f=L2.fn):
+        return f(*[(_z(c[1]) if c[0] == "fix" else _z(c[1]) + c[2] * idx[c[3]]) for c in coords])
+
+    return a._derive(a.shape, at, struct=("aff", L2, list(coords)))
+
+
+def sarr_isnan(a):
+    return companion_view(a, "nan")
+
+
+def sarr_where(cond, x, y):
+    """np.where(valid, values, c): the 'clean' companion, when cond is the validity view of the same view"""
+    cs, xs = cond.struct, x.struct
+    if isinstance(y, SArr) or cs is None or xs is None or cs[0] != "aff" or xs[0] != "aff":
+        raise core.Unsupported("np.where on symbolic arrays other than where(valid(v), v, constant)")
+    if cs[1].role != "valid" or cs[1].parent is not xs[1] or not _same_coords(cs[2], xs[2]):
+        raise core.Unsupported("np.where condition is not the validity of the same view")
+    return companion_view(x, ("clean", y))
+
+
+class Leaf:
+    """identity of a source array and its uninterpreted prefix functions:
+    prefix(L, op)(p_0..p_{L-1}, k, p_{L+1}..) stands for the op-sum of src[..., u, ...] over u < k"""
+
+    def __init__(self, name, nd, parent=None, role=None):
+        self.name, self.nd = name, nd
+        self._pfx = {}
+        self._comp = {}
+        self.parent, self.role = parent, role
+        self.fn = z3.Function(f"src_{name}", *([z3.IntSort()] * nd + [z3.RealSort()])) if nd else None
+
+    def companion(self, role):
+        """derived per-element quantities of the same source: 'nan' (1 where NaN), 'valid' (1 where not NaN),
+        ('clean', c) (the value, or c where NaN) -- uninterpreted, one function per role"""
+        if role not in self._comp:
+            tag = role if isinstance(role, str) else "_".join(str(x).replace("-", "m").replace(".", "p") for x in role)
+            self._comp[role] = Leaf(f"{self.name}__{tag}", self.nd, parent=self, role=role)
+        return self._comp[role]
+
+    def prefix(self, L, op="add"):
+        key = (L, op)
+        if key not in self._pfx:
+            self._pfx[key] = z3.Function(f"pfx_{self.name}_{L}_{op}", *([z3.IntSort()] * self.nd + [z3.RealSort()]))
+        return self._pfx[key]
 
 
 # ---- NumPy-level functions on SArr (dispatched through __array_function__)
@@ -317,7 +627,8 @@ def _concatenate(arrs, axis=0, **_k):
             out = v if out is None else z3.If(idx[axis] >= _z(lo) + _z(a.shape[axis]), out, v)
         return out
 
-    return arrs[0]._derive(shape, at)
+    st = ("cat", axis, list(arrs)) if all(a.struct is not None for a in arrs) else None
+    return arrs[0]._derive(shape, at, struct=st)
 
 
 def _stack(arrs, axis=0, **_k):
@@ -343,7 +654,30 @@ _NP_FUNCS = dict(
     squeeze=lambda a, axis=None: _squeeze(a, axis),
     moveaxis=lambda a, s, d: _moveaxis(a, s, d),
     swapaxes=lambda a, i, j: _swapaxes(a, i, j),
+    repeat=lambda a, repeats, axis=None: _repeat(a, repeats, axis),
+    cumsum=lambda a, axis=None, dtype=None, out=None: a.accumulate(axis, "add"),
+    sum=lambda a, axis=None, dtype=None, out=None, keepdims=False, **k: a.reduce_axis(axis, "add", keepdims),
 )
+
+
+def _repeat(a, repeats, axis):
+    """np.repeat of an array that has length 1 along `axis` (a symbolic number of copies)"""
+    axis = int(axis) % a.ndim
+    d = a.shape[axis]
+    shape = list(a.shape)
+    if d == 1:  # forks when the extent is symbolic
+        shape[axis] = repeats
+    elif d == 0:
+        shape[axis] = 0
+    else:
+        raise core.Unsupported("np.repeat of an array longer than 1 along the axis")
+
+    def at(idx, a=a, axis=axis):
+        j = list(idx)
+        j[axis] = z3.IntVal(0)
+        return a._at(tuple(j))
+
+    return a._derive(shape, at)
 
 
 def _squeeze(a, axis):
